@@ -3,7 +3,7 @@
 # unchanged tree; prints one line per (property, seed) and a summary. No evidence is written.
 # usage: tools/soak.sh [first_seed=100] [count=20] [props...]
 cd "$(dirname "$0")/.."
-A=${1:-100}; N=${2:-20}; shift 2 2>/dev/null
+A=${1:-100}; N=${2:-20}; [ $# -gt 0 ] && shift; [ $# -gt 0 ] && shift
 PROPS=${*:-C01 C03 C04 C05 C07 C12 C13 C14 C16 C17 C18 C19}
 D=$(mktemp -d /tmp/detsim-soak-XXXXXX)
 bad=0
